@@ -278,6 +278,47 @@ func runSample() {
 			j := jobs[i]
 			sampleCase(l, j.dx, j.dy, xforms(j.dx, j.dy)[j.k], nil)
 		})
+	// perspective quadrilaterals ANCHORED at the image origin with two sides on the image axes: the
+	// transform then has a12 = a21 = 0 exactly (it looks "upright") although a13, a23 != 0 bend the
+	// rows - a coefficient pattern that no shifted or rotated placement produces
+	type aj struct {
+		dx, dy, k int
+	}
+	anchored := func(dx, dy int) []xform {
+		X, Y := float64(dx), float64(dy)
+		g := gridRect(dx, dy)
+		return []xform{
+			{"perspective-anchored", "third corner pulled in", g, [8]float64{0, 0, 4 * X, 0, 3 * X, 2.5 * Y, 0, 4.5 * Y}},
+			{"perspective-anchored", "third corner pushed out", g, [8]float64{0, 0, 2 * X, 0, 3.5 * X, 3.25 * Y, 0, 2 * Y}},
+			{"perspective-anchored", "keystone on the y axis", g, [8]float64{0, 0, 3 * X, 0, 2.25 * X, 3 * Y, 0, 3 * Y}},
+			{"perspective-anchored", "keystone on the x axis", g, [8]float64{0, 0, 3 * X, 0, 3 * X, 2.25 * Y, 0, 3 * Y}},
+			{"affine-anchored", "scale only (control)", g, [8]float64{0, 0, 3 * X, 0, 3 * X, 2 * Y, 0, 2 * Y}},
+		}
+	}
+	var ajs []aj
+	for _, d := range [][2]int{{2, 2}, {3, 2}, {8, 8}, {8, 3}, {21, 21}, {33, 33}, {57, 21}} {
+		for k := range anchored(d[0], d[1]) {
+			ajs = append(ajs, aj{d[0], d[1], k})
+		}
+	}
+	chk.Range("sampling: quadrilaterals anchored at the image origin with two sides on the image axes (4 perspective shapes + 1 affine control) x 7 grid dimensions x images {4 kinds} x {SampleGrid, SampleGridWithTransform, second sampling}: every cell compared with the exact model", len(ajs),
+		func(i int) string { return fmt.Sprint(ajs[i]) },
+		func(l *mc.Local, i int) {
+			j := ajs[i]
+			xf := anchored(j.dx, j.dy)[j.k]
+			maxx, maxy := 0.0, 0.0
+			for q := 0; q < 4; q++ {
+				if xf.from[2*q] > maxx {
+					maxx = xf.from[2*q]
+				}
+				if xf.from[2*q+1] > maxy {
+					maxy = xf.from[2*q+1]
+				}
+			}
+			for _, kind := range imageKinds {
+				sampleCase(l, j.dx, j.dy, xf, &rcase{Kind: "sample-fixed", W: int(maxx) + 3, H: int(maxy) + 3, Image: kind})
+			}
+		})
 	chk.Sample("sample", rcase{Kind: "sample", DimX: 3, DimY: 2, Class: "rotate", Src: gridRect(3, 2), Dst: orientedQuad(1, 2, 3, 2, 2.125, 2.375), W: 9, H: 11, Image: "hashA"})
 }
 
@@ -345,7 +386,7 @@ func sampleCase(l *mc.Local, dx, dy int, xf xform, fixed *rcase) {
 				return
 			}
 			verdict, what, _ := m.judge(kind, res, err)
-			if fixed != nil {
+			if fixed != nil && fixed.Kind != "sample-fixed" {
 				fmt.Printf("replay %s: err=%v verdict=%q %s\n", api, err, verdict, what)
 			}
 			switch verdict {
